@@ -169,6 +169,13 @@ def plant(r, stmts, shell):
         w = ('word', (lit('sp='), e))
         if r.random() < 0.3:
             w = ('word', (lit('sp='), alt(lit('ok'), e)))
+        if e[0] == 'nt' and r.random() < 0.5:
+            # the same definition is also used where spaces are fine (outside a word), and that use comes first
+            use = seq(lit('plainuse'), e)
+            if r.random() < 0.5:
+                stmts.insert(0, call('cmd', alt(use, seq(lit('inword'), w))))
+                return kind, stmts, True
+            stmts.insert(0, call('cmd', use))
         stmts = attach(r, stmts, w)
         return kind, stmts, True
     if kind == 'nontail':
@@ -194,6 +201,9 @@ def plant(r, stmts, shell):
         a, b = lit('cx', 'one'), lit('cx', 'two')
         shape = r.choice([
             alt(a, b),
+            alt(seq(a, lit('y1')), lit('mid'), seq(b, lit('y2'))),
+            alt(lit('m0'), seq(a, lit('y1')), lit('m1'), lit('m2'), seq(b, lit('y2')), lit('m3')),
+            alt(a, lit('mid', 'one'), b),
             alt(seq(a, lit('y1')), seq(b, lit('y2'))),
             seq(opt(a), b),
             ('word', (lit('cf='), alt(a, b))),
